@@ -76,6 +76,11 @@ macro_rules! function {
                 args: &[Value],
             ) -> Result<Type, Error>
             {
+                // a wrong number of arguments is a type error like any other (the unwraps below rely on it)
+                let arity = [$(stringify!($aname)),+].len();
+                if args.len() != arity {
+                    bail!("{} takes {} argument(s), {} given", stringify!($name), arity, args.len())
+                }
                 let mut targs : Vec<Type> = Vec::with_capacity(args.len());
                 for x in args {
                     let t = x.real_type_of($ctx.clone())?;
